@@ -838,7 +838,10 @@ pub static GLOBAL: Driver<AliasCase> = Driver::new("C17", "global", check_alias)
 const NAMES: [&str; 4] = ["a", "b", "c", "d"];
 
 /// Value shapes; `S` = the alias' own name, `N` = the next name (cyclically), `P` = the previous.
-const VALUES: [&str; 23] = [
+const VALUES: [&str; 26] = [
+    // a loop header ending in a blank, and `do` after a newline: reserved words and newlines that
+    // emerge from replacement text after a blank-ending value
+    "for i in x; ", "\ndo", "do",
     "N", "N ", "N P", "if", "!", "{", "then", ";", "|", "&&", "(", ">f", "v=1", "'N'", "\\N", "", "probe x", "probe y ", "S",
     "S x", "probe n\nN", "\nprobe m",
     // blank-ending value with multi-byte characters (positions counted in characters vs bytes)
@@ -891,7 +894,9 @@ fn global_table_from_index(mut t: u64, n: usize) -> Option<Vec<Def>> {
 }
 
 /// Quick-tier line templates (names a, b, c).
-const LINES_QUICK: [&str; 48] = [
+const LINES_QUICK: [&str; 50] = [
+    "a b probe q; done",
+    "a b\nprobe q; done",
     // the word after `command` is an argument like any other
     "command a",
     "command a b",
